@@ -250,6 +250,10 @@ def c16(tier, seed):
     scns += C.unweighted(scns[:2])
     scns += _with_insertions([scenario("cat_x_cat.ins", [cat("A", 3), cat("B", 3, miss=[2])])],
                              6 if tier == "quick" else 30, seed)
+    scns += _with_order_configs([scenario("cat_x_mr.hide", [cat("A", 3, miss=[3]), mr("B", 2)]),
+                                 scenario("mr_x_cat.hide", [mr("A", 2), cat("B", 3, miss=[1])]),
+                                 scenario("cat_x_cat.hide", [cat("A", 3), cat("B", 3, miss=[2])])],
+                                6 if tier == "quick" else 40, seed, with_prune=True)
     return dict(
         jobs=_value_jobs("C16", "c16", scns, tier, seed),
         rule="categorical / MR pairings, 2-D and 3-D, with missing column categories so that "
